@@ -137,10 +137,13 @@ static void SetCPUCore(tCPUDef const* pCPUDef, tStrComp const* pCPUArgs) {
         }
     }
 
+    /* predefined symbols are global, also when set from within a macro body */
+    PushLocHandle(-1);
     strmaxcpy(TmpCompStr, MomCPUName, sizeof(TmpCompStr));
     EnterIntSymbol(&TmpComp, HCPU, SegNone, True);
     strmaxcpy(TmpCompStr, MomCPUIdentName, sizeof(TmpCompStr));
     EnterStringSymbol(&TmpComp, MomCPUIdent, True);
+    PopLocHandle();
 
     InternSymbol          = Default_InternSymbol;
     IntConstModeIBMNoTerm = False;
@@ -1083,7 +1086,9 @@ static void CodeRESTORE(Word Index) {
         }
         StrCompMkTemp(&TmpComp, TmpCompStr, sizeof(TmpCompStr));
         strmaxcpy(TmpCompStr, ListOnName, sizeof(TmpCompStr));
+        PushLocHandle(-1);
         EnterIntSymbol(&TmpComp, ListOn = Old->SaveListOn, SegNone, True);
+        PopLocHandle();
         SetLstMacroExp(Old->SaveLstMacroExp);
         LstMacroExpModDefault  = Old->SaveLstMacroExpModDefault;
         LstMacroExpModOverride = Old->SaveLstMacroExpModOverride;
@@ -1516,7 +1521,9 @@ static void CodeLISTING(Word Index) {
 
             StrCompMkTemp(&TmpComp, TmpCompStr, sizeof(TmpCompStr));
             strmaxcpy(TmpCompStr, ListOnName, sizeof(TmpCompStr));
+            PushLocHandle(-1);
             EnterIntSymbol(&TmpComp, ListOn = Value, SegNone, True);
+            PopLocHandle();
         }
     }
 }
